@@ -257,7 +257,8 @@ def check(prog: Program, tier: str) -> Result:
             "evaluated successfully; (R16.5) with an unknown `if` test both branches must block; (R16.6) the "
             "safe-callable inference starts from a set free of impure/stateful builtins and adds a function only if "
             "all its non-returning statements and returned expressions are effect-free; (R16.7) consumers delete on "
-            "the safe polarity. Not decided: reachability proper (nested break/try/with-suppress) and the answers for "
+            "the safe polarity; (R16.8) the loop context travels with every recursive is_blocking call; (R16.9) the analysers do not "
+            "mutate their arguments (shared whitelist). Not decided: reachability proper (nested break/try/with-suppress) and the answers for "
             "covered fields."),
         rule_text="instances = (analyser, ast kind) pairs, loop/if branches of is_blocking, consumer sites; non-trivial = kinds that can receive the unsafe answer",
     )
@@ -694,7 +695,7 @@ VARIANTS: List[Variant] = [
 
 META = {
     "design_ref": "DESIGN.md section 3, C16",
-    "technique": "per-kind partial evaluation of the isinstance-dispatch analysers against a reference table of evaluated fields; path-condition check of the loop rules; constant-set evaluation of the safe-callable set",
+    "technique": "per-kind partial evaluation of the isinstance-dispatch analysers against a reference table of evaluated fields; path-condition check of the loop rules; constant-set evaluation of the safe-callable set; parameter-mutation summaries of the analysers (ownership interpreter)",
     "level_text": ("Decides on the current source, for every ast node kind of the running interpreter, which answers "
                    "has_side_effect / is_blocking can give and which fields they consult, and from that: conservative "
                    "defaults, field coverage for every kind that can be called effect-free, definitions/imports/control "
